@@ -105,7 +105,9 @@ def triggerOuts : List Op → List Out → List Res
 `turmoil-fs` fires the hook from inside `FsContext::current`, i.e. while the host's `Fs` mutex is held. A reaction
 that panics (`Panic`, or `Suspend` met by `trigger_noop`) therefore poisons that mutex; if the unwinding host code
 then drops a shim `File`, `Drop for File` → `FsContext::current_if_set` → `lock().expect(..)` panics *during
-unwinding* and the process aborts instead of the triggering code panicking. -/
+unwinding* and the process aborts instead of the triggering code panicking.
+Repaired by /repo 0647206 (drop paths tolerate a poisoned mutex): the committed variant is `fixedHook`;
+`faithfulHook` describes the code before the repair and is what the driver reports as `regressed:F-C20-1`. -/
 
 structure HookCfg where
   /-- repair: the drop path of the shim tolerates a poisoned `Fs` mutex -/
